@@ -21,25 +21,6 @@ Definition B (n : Z) (ws : list int) : bytes := firstn (Z.to_nat n) (concat (map
 Definition E (str : list (bytes * bytes)) (num : list (bytes * Z)) (flt : list (bytes * bytes)) (readers : list bytes) : entity :=
   {| e_str := str; e_num := num; e_flt := flt; e_readers := readers |}.
 
-Definition kind_eqb (a b : kind) : bool :=
-  match a, b with
-  | KPaths, KPaths | KForward, KForward | KHlsSessions, KHlsSessions | KHlsMuxers, KHlsMuxers | KRtspConns, KRtspConns
-  | KRtspSessions, KRtspSessions | KRtspsConns, KRtspsConns | KRtspsSessions, KRtspsSessions | KRtmpConns, KRtmpConns
-  | KRtmpsConns, KRtmpsConns | KSrtConns, KSrtConns | KWebrtcSessions, KWebrtcSessions | KMoqSessions, KMoqSessions => true
-  | _, _ => false
-  end.
-
-Fixpoint srv_lookup (k : kind) (l : list (kind * listing)) : listing :=
-  match l with
-  | [] => Absent
-  | (k', v) :: r => if kind_eqb k' k then v else srv_lookup k r
-  end.
-
-(* paths list (None = error), forward destinations per path name (missing / None = error), list per server kind
-   (missing = no server) *)
-Definition mk_state (paths : option (list entity)) (fwd : list (bytes * option (list entity))) (srv : list (kind * listing)) : state :=
-  {| st_paths := paths; st_fwd := fun n => lookup None n fwd; st_srv := fun k => srv_lookup k srv |}.
-
 (* ---- what the property calls for ---- *)
 Inductive val := VI (z : Z) | VT (tok : bytes).       (* integer counter / FormatFloat token *)
 (* one entity (or the zero lines of one kind): its label set sorted by key (None: no label set) and, per metric
@@ -63,17 +44,18 @@ Definition tags_eqb (a b : option (list label)) : bool :=
   | _, _ => false
   end.
 
-(* model vs implementation: the whole body *)
+(* model vs implementation: the whole body; and the shipped float tokens satisfy the theorem's hypothesis *)
 Definition mismatch (c : case) : bool :=
   match c with
-  | Scrape paths fwd srv q body _ _ => negb (beqb body (body_of (mk_state paths fwd srv) q))
+  | Scrape paths fwd srv q body _ _ =>
+      let st := mk_state paths fwd srv in negb (beqb body (body_of st q)) || negb (wf_stateb st)
   end.
 
 Definition val_tok (v : val) : bytes := match v with VI z => format_int z | VT t => t end.
 Definition flat_expected (ex : list expent) : list (bytes * option (list label) * bytes) :=
   flat_map (fun x => match x with X t vs => map (fun nv => (fst nv, t, val_tok (snd nv))) vs end) ex.
 Definition matches (e : bytes * option (list label) * bytes) (s : sample) : bool :=
-  let '(n, t, v) := e in beqb (s_name s) n && tags_eqb (s_tags s) t && beqb (s_value s) v.
+  let '(n, t, v) := e in beqb (s_value s) v && beqb (s_name s) n && tags_eqb (s_tags s) t.
 
 (* the property: the body is valid exposition text; every expected sample is present with exactly the entity's
    label values and value; no other sample exists under the covered metric names (nothing injected, nothing of an
